@@ -83,11 +83,39 @@ func (t *Term) String() string {
 		s = fmt.Sprintf("<result%d>", t.Idx)
 	case "typeassert":
 		s = t.Args[0].String() + ".(" + t.Name + ")"
+	case "orzero":
+		s = "orzero(" + t.Args[0].String() + ")"
 	default:
 		s = t.Op + ":" + t.Name
 	}
 	t.str = s
 	return s
+}
+
+// StripOrZero replaces every orzero(X) in t by X: the reading "this value, or the zero value of its type". Only rules
+// for which the zero value is harmless (a count of 0, an empty list) may match on the stripped term.
+func StripOrZero(t *Term) *Term {
+	if t == nil {
+		return nil
+	}
+	if t.Op == "orzero" && len(t.Args) == 1 {
+		return StripOrZero(t.Args[0])
+	}
+	changed := false
+	na := make([]*Term, len(t.Args))
+	for i, a := range t.Args {
+		na[i] = StripOrZero(a)
+		if na[i] != a {
+			changed = true
+		}
+	}
+	if !changed {
+		return t
+	}
+	c := *t
+	c.Args = na
+	c.str = ""
+	return &c
 }
 
 // Root returns the left-most base of a field/index chain.
@@ -481,6 +509,24 @@ func (tb *TermBuilder) load(addr ssa.Value) *Term {
 					}
 				}
 			}
+			// ... or from a merge of such structs and the zero struct (`c := candidate{}` on one path, a filled literal on
+			// the other): the field holds that value or the zero value — orzero(X), which only zero-tolerant matching accepts
+			if n == 0 && len(tb.stores[al]) >= 1 && localOnly(al) {
+				key := fmt.Sprintf("%p.%d.merge", al, a.Field)
+				if tb.busyLoad == nil {
+					tb.busyLoad = map[string]bool{}
+				}
+				if !tb.busyLoad[key] {
+					tb.busyLoad[key] = true
+					var only *Term
+					okAll := true
+					tb.mergedField(al, a.Field, map[*ssa.Alloc]bool{}, &only, &okAll)
+					delete(tb.busyLoad, key)
+					if okAll && only != nil {
+						return &Term{Op: "orzero", Args: []*Term{only}}
+					}
+				}
+			}
 			if n == 1 && len(tb.stores[al]) == 0 {
 				key := fmt.Sprintf("%p.%d", al, a.Field)
 				if tb.busyLoad == nil {
@@ -561,6 +607,96 @@ func localOnly(a *ssa.Alloc) bool {
 				}
 			}
 		default:
+			return false
+		}
+	}
+	return true
+}
+
+// mergedField: the values field f of local struct al can hold when al is only ever assigned as a whole — from the zero
+// struct, from other such locals, or from struct literals whose field is stored once. All non-zero values must agree
+// (*only); anything else clears *ok.
+func (tb *TermBuilder) mergedField(al *ssa.Alloc, f int, seen map[*ssa.Alloc]bool, only **Term, ok *bool) {
+	if seen[al] || !*ok {
+		return
+	}
+	seen[al] = true
+	if !localOnly(al) {
+		if dbgMerge {
+			println("mergedField: not local", al.Name(), al.Comment)
+			for _, r := range *al.Referrers() {
+				println("   ref", r.String())
+			}
+		}
+		*ok = false
+		return
+	}
+	// a literal: the field is stored directly, once, and the struct is never assigned as a whole
+	nField := 0
+	var fst *ssa.Store
+	for _, blk := range tb.Fn.Blocks {
+		for _, ins := range blk.Instrs {
+			st, isSt := ins.(*ssa.Store)
+			if !isSt {
+				continue
+			}
+			if fa, isFA := st.Addr.(*ssa.FieldAddr); isFA && fa.X == ssa.Value(al) && fa.Field == f {
+				nField++
+				fst = st
+			}
+		}
+	}
+	whole := tb.stores[al]
+	switch {
+	case nField == 1 && allZeroStores(whole):
+		// a literal built in place (the field is stored once); whole-struct assignments, if any, only reset it to zero
+		t := tb.Of(fst.Val)
+		if *only != nil && (*only).String() != t.String() {
+			*ok = false
+			return
+		}
+		*only = t
+		return
+	case nField > 0:
+		*ok = false
+		return
+	}
+	var val func(v ssa.Value, depth int)
+	val = func(v ssa.Value, depth int) {
+		if !*ok || depth > 6 {
+			*ok = false
+			return
+		}
+		switch x := v.(type) {
+		case *ssa.Const:
+			if x.Value != nil {
+				*ok = false
+			}
+		case *ssa.Phi:
+			for _, e := range x.Edges {
+				val(e, depth+1)
+			}
+		case *ssa.UnOp:
+			src, isAl := x.X.(*ssa.Alloc)
+			if x.Op != token.MUL || !isAl {
+				*ok = false
+				return
+			}
+			tb.mergedField(src, f, seen, only, ok)
+		default:
+			*ok = false
+		}
+	}
+	for _, st := range whole {
+		val(st.Val, 0)
+	}
+}
+
+var dbgMerge = false
+
+func allZeroStores(sts []*ssa.Store) bool {
+	for _, st := range sts {
+		if c, ok := st.Val.(*ssa.Const); !ok || c.Value != nil {
 			return false
 		}
 	}
